@@ -1,3 +1,4 @@
+import json
 """Validation / parsing / distribution rules: C11, C12, C13."""
 from .core import AnchorMissing, strip_sites, walk, show, callee_str, callee_decl, decl_matches, callee_key, is_param_call
 from .paths import stores, calls, field_stores
@@ -121,6 +122,22 @@ def uniform_validate_facts(ctx):
 
 # ------------------------------------------------------------------ C13
 
+def check_uniform_sampler(ctx, rep, rid):
+    """what Dist::validate's Uniform arm licenses (finite low <= high with a finite width) is what the sampler needs only for the
+    half-open gen_range(low..high) behind low != high; the inclusive sampler divides the width by 1 - 2^-52 and asserts the result finite"""
+    prog, an = ctx.prog, ctx.an
+    sfn = prog.fn(FW, 'Dist', 'dist_sample')
+    sa = an.get(sfn)
+    gr = [(b, f, a, t) for (b, f, a, t) in calls(sa) if callee_decl(f).endswith('Rng::gen_range')]
+    rep.count_exact(rid, 'gen_range in dist_sample', len(gr), 1)
+    for (b, f, a, t) in gr:
+        rg = a[1]
+        ok = rg[0] == 'agg' and rg[2] == 'Range' and not rg[1].endswith('RangeInclusive')
+        rep.ob(rid, sfn, 'half-open-range', ok, 'gen_range(%s)' % shape(rg))
+        if ok:
+            rep.ob(rid, sfn, 'range-behind-low-ne-high', uniform_guard(ctx, sfn, sa, b, dict(rg[3])), '')
+
+
 def check_C13(ctx, rep):
     prog, an = ctx.prog, ctx.an
     rep.rule('C13.R1', 'sibling agreement: for every DistType variant the rand_distr constructor whose result Dist::validate propagates with `?` '
@@ -240,14 +257,7 @@ def check_C13(ctx, rep):
     uf = uniform_validate_facts(ctx)
     for k2, v2 in uf.items():
         rep.ob('C13.R3', vfn, 'uniform:' + k2, v2, 'every Ok path of the Uniform arm crosses the %s edge' % k2)
-    gr = [(b, f, a, t) for (b, f, a, t) in calls(sa) if callee_decl(f).endswith('Rng::gen_range')]
-    rep.count_exact('C13.R3', 'gen_range in dist_sample', len(gr), 1)
-    for (b, f, a, t) in gr:
-        rg = a[1]
-        ok = rg[0] == 'agg' and rg[2] == 'Range' and not rg[1].endswith('RangeInclusive')
-        rep.ob('C13.R3', sfn, 'half-open-range', ok, 'gen_range(%s)' % shape(rg))
-        if ok:
-            rep.ob('C13.R3', sfn, 'range-behind-low-ne-high', uniform_guard(ctx, sfn, sa, b, dict(rg[3])), '')
+    check_uniform_sampler(ctx, rep, 'C13.R3')
     # R4 speed guards
     pfv = an.paths(vfn, history=True)
     guards = {'Binomial': [('trials', 'upper')], 'Geometric': [], 'Poisson': [('lambda', 'upper')]}
@@ -666,6 +676,8 @@ def check_C12(ctx, rep):
            'constructor table: %s' % {k.split('::')[-2]: v for k, v in tab.items()})
     uf = uniform_validate_facts(ctx)
     rep.ob('C12.R3', prog.fn(FW, 'Dist', 'validate'), 'uniform-parameters-rejected', all(uf.values()), '%s' % uf)
+    # ... and the sampler those Uniform checks were written for is the one in use (validation accepts what *this* sampler handles)
+    check_uniform_sampler(ctx, rep, 'C12.R3')
     if ctx.tier == 'thorough':
         thorough_rand_distr(ctx, rep)
     rep.assumptions += ['f32 summation error at the bound is not decided', 'every CFG path is treated as feasible',
@@ -991,6 +1003,32 @@ def field_unread_by_framework(ctx, adt, field):
     return res
 
 
+def check_wire_layout(ctx, rep, rid):
+    from .layout import wire_fingerprint, frozen
+    prog, an = ctx.prog, ctx.an
+    fz = frozen()
+    if fz is None:
+        rep.fail_closed(rid, 'sa/known_layout.json')
+        return
+    ver = str(prog.const_val('maybenot::constants::VERSION'))
+    fp, lay = wire_fingerprint(prog, an)
+    if ver != fz['version']:
+        rep.ob(rid, 'constants', 'layout-free-under-a-new-VERSION', True, 'VERSION %s (table frozen for %s)' % (ver, fz['version']))
+        return
+    diff = []
+    if fp != fz['fingerprint']:
+        old = fz['layout']
+        for k in sorted(set(old) | set(lay)):
+            a, b = old.get(k), lay.get(k)
+            if a is None or b is None:
+                continue    # a renamed type: the fingerprint ignores names, the report cannot line it up
+            if json.dumps(a) != json.dumps(b):
+                av = [v[0] or '_' for v in a[1]]
+                bv = [v[0] or '_' for v in b[1]]
+                diff.append('%s: variants %s -> %s' % (k.split('::')[-1], av, bv) if av != bv else '%s: field types changed' % k.split('::')[-1])
+    rep.ob(rid, 'wire-layout', 'layout-unchanged-under-VERSION-%s' % ver, fp == fz['fingerprint'], 'types %d; %s' % (len(lay), '; '.join(diff) or 'fingerprint matches the table'))
+
+
 def check_C11(ctx, rep):
     prog, an = ctx.prog, ctx.an
     rep.rule('C11.R1', 'writer/reader agreement: serialize and from_str build the same bincode options (same resolved calls, same limit constant), '
@@ -1110,6 +1148,12 @@ def check_C11(ctx, rep):
                 rep.ob('C11.R2', fs, 'deserialises-with-limit', okl, '')
         # ---- R8: completeness of the bounded read (finding F8)
         check_read_until_full(ctx, rep, fs, fa)
+    # ---- R9 wire layout
+    rep.rule('C11.R9', 'the wire layout belongs to the format version: bincode is positional, so for VERSION 2 the types reachable from Machine keep '
+             'their variants in order (by name: the position of a variant is its meaning on the wire), their serialised field types in order, and '
+             'Event keeps its order (its discriminant indexes State.transitions). A different layout under the same VERSION silently '
+             're-interprets every stored machine string; a new VERSION is free to choose its layout')
+    check_wire_layout(ctx, rep, 'C11.R9')
     # ---- R3
     check_validate_before_ok(ctx, rep, 'C11.R3')
     rep.rule('C11.R7', 'Machine::new stores each parameter in the same-named field; the v1 parser passes its decoded header values in that order; '
